@@ -31,12 +31,15 @@ Definition dump (s : st) :=
     map (fun p => (rz (fst p), rk (snd p))) (i2k (sq s)),
     rz (nxt (sq s)))).
 
-(* a call sequence on a fresh dictionary + quoted store: every output, then the final maps *)
-Definition seq_run (ops : list op) :=
-  match run st_new ops with
-  | Ok (s, outs) => Ok (map render_out outs, dump s)
-  | Err e => Err e
+(* a call sequence on a fresh dictionary + quoted store whose public counters `next_id` / `next_qt_id` were
+   set to dn / qn beforehand (dn = 0, qn = 2^31 is `new()`): the outputs up to the first call that
+   panicked, the error if any, and the maps in which that call was made *)
+Definition seq_run_from (dn qn : N) (ops : list op) :=
+  match run_upto (mkSt (mkBimap [] [] dn) (mkBimap [] [] qn)) ops with
+  | (outs, e, s) => (map render_out outs, e, dump s)
   end.
+
+Definition seq_run (ops : list op) := seq_run_from 0 QBIT ops.
 
 (* quads, graph identities and seeds of the lexical dataset; the dictionary terms and quoted terms
    are not printed as trees (quadratic in the nesting): the check rebuilds them from `dump` *)
